@@ -713,8 +713,10 @@ impl Router {
                         let mut filter = f.path.clone();
                         let mut group = None;
 
-                        if let Some((grp, filter_path)) = extract_group(&f.path) {
-                            group = Some(grp);
+                        if let Some((_share_name, filter_path)) = extract_group(&f.path) {
+                            // a shared subscription is identified by its share name and its
+                            // filter: `$share/g/a` and `$share/g/b` are different groups
+                            group = Some(f.path.clone());
                             filter = filter_path;
                         };
 
@@ -782,11 +784,11 @@ impl Router {
 
                         // Leave the group of this shared subscription (and only that one),
                         // discard the group if it has no client left
-                        if let Some((group_name, _)) = extract_group(filter) {
-                            if let Some(group) = self.shared_subscriptions.get_mut(&group_name) {
+                        if extract_group(filter).is_some() {
+                            if let Some(group) = self.shared_subscriptions.get_mut(filter) {
                                 group.remove_client(&client_id);
                                 if group.is_empty() {
-                                    self.shared_subscriptions.remove(&group_name);
+                                    self.shared_subscriptions.remove(filter);
                                 }
                             }
                         }
